@@ -21,6 +21,16 @@
 
 typedef unsigned char ref_u8;
 
+/* constant loop bounds (a harness may set them to its own bounds so that symbolic
+ * execution stops unrolling there); they do not restrict the recognisers as long
+ * as inputs are not longer */
+#ifndef REF_MAXLINES
+#define REF_MAXLINES 8
+#endif
+#ifndef REF_MAXLINE
+#define REF_MAXLINE 64
+#endif
+
 static int ref_is_digit(ref_u8 c) { return c >= '0' && c <= '9'; }
 static int ref_is_alpha(ref_u8 c) { return (c >= 'A' && c <= 'Z') || (c >= 'a' && c <= 'z'); }
 static int ref_is_hexdig(ref_u8 c) { return ref_is_digit(c) || (c >= 'A' && c <= 'F') || (c >= 'a' && c <= 'f'); }
@@ -48,7 +58,7 @@ static int ref_is_token(const ref_u8 *p, size_t n)
 	size_t i;
 	if (n == 0)
 		return 0;
-	for (i = 0; i < n; i++)
+	for (i = 0; i < REF_MAXLINE && i < n; i++)
 		if (!ref_is_tchar(p[i]))
 			return 0;
 	return 1;
@@ -244,7 +254,7 @@ static void ref_fieldline_parse(const ref_u8 *line, size_t len, struct ref_field
 	size_t i, colon = len, b, e;
 	r->has_colon = r->name_token = r->ws_before_colon = r->value_bad_octet = 0;
 	r->n_off = r->n_len = r->v_off = r->v_len = 0;
-	for (i = 0; i < len; i++) {
+	for (i = 0; i < REF_MAXLINE && i < len; i++) {
 		if (line[i] == ':') { colon = i; break; }
 	}
 	if (colon == len)
@@ -254,10 +264,10 @@ static void ref_fieldline_parse(const ref_u8 *line, size_t len, struct ref_field
 	r->name_token = ref_is_token(line, colon);
 	r->ws_before_colon = colon > 0 && ref_is_ows(line[colon - 1]);
 	b = colon + 1; e = len;
-	while (b < e && ref_is_ows(line[b])) b++;
-	while (e > b && ref_is_ows(line[e - 1])) e--;
+	for (i = 0; i < REF_MAXLINE && b < e && ref_is_ows(line[b]); i++) b++;
+	for (i = 0; i < REF_MAXLINE && e > b && ref_is_ows(line[e - 1]); i++) e--;
 	r->v_off = b; r->v_len = e - b;
-	for (i = b; i < e; i++)
+	for (i = b; i < REF_MAXLINE && i < e; i++)
 		if (line[i] == '\r' || line[i] == '\n' || line[i] == '\0')
 			r->value_bad_octet = 1;
 }
@@ -281,6 +291,14 @@ static void ref_fieldline_parse(const ref_u8 *line, size_t len, struct ref_field
 #ifndef REF_MAXF
 #define REF_MAXF 4
 #endif
+/* constant loop bounds (a harness sets them to its own bounds so that symbolic
+ * execution stops unrolling there): lines per section, bytes per line */
+#ifndef REF_MAXLINES
+#define REF_MAXLINES 8
+#endif
+#ifndef REF_MAXLINE
+#define REF_MAXLINE 64
+#endif
 #ifndef REF_MAXV
 #define REF_MAXV 48
 #endif
@@ -297,7 +315,7 @@ static void ref_header_section(const ref_u8 *const *lines, const size_t *lens, s
 {
 	size_t li, i;
 	h->status = REF_H_MORE; h->strict = 1; h->leading_fold = 0; h->nlines_used = 0; h->nfields = 0;
-	for (li = 0; li < nlines; li++) {
+	for (li = 0; li < REF_MAXLINES && li < nlines; li++) {
 		const ref_u8 *l = lines[li];
 		size_t n = lens[li];
 		h->nlines_used = li + 1;
@@ -307,11 +325,11 @@ static void ref_header_section(const ref_u8 *const *lines, const size_t *lens, s
 			struct ref_hfield *f;
 			if (h->nfields == 0) { h->leading_fold = 1; h->strict = 0; h->status = REF_H_REJECT; return; }
 			f = &h->f[h->nfields - 1];
-			while (b < e && ref_is_ows(l[b])) b++;
-			while (e > b && ref_is_ows(l[e - 1])) e--;
+			for (i = 0; i < REF_MAXLINE && b < e && ref_is_ows(l[b]); i++) b++;
+			for (i = 0; i < REF_MAXLINE && e > b && ref_is_ows(l[e - 1]); i++) e--;
 			if (f->value_len + 1 + (e - b) > REF_MAXV) { h->strict = 0; h->status = REF_H_REJECT; return; }
 			f->value[f->value_len++] = ' ';
-			for (i = b; i < e; i++) {
+			for (i = b; i < REF_MAXLINE && i < e; i++) {
 				if (l[i] == '\r' || l[i] == '\n' || l[i] == '\0') h->strict = 0;
 				f->value[f->value_len++] = l[i];
 			}
@@ -324,13 +342,13 @@ static void ref_header_section(const ref_u8 *const *lines, const size_t *lens, s
 			ref_fieldline_parse(l, n, &fl);
 			if (!fl.has_colon || fl.n_len == 0 || fl.ws_before_colon) { h->strict = 0; h->status = REF_H_REJECT; return; }
 			if (!fl.name_token || fl.value_bad_octet) h->strict = 0;
-			for (i = 0; i < fl.n_len; i++) if (l[i] == '\0') h->strict = 0;
+			for (i = 0; i < REF_MAXLINE && i < fl.n_len; i++) if (l[i] == '\0') h->strict = 0;
 			if (h->nfields == REF_MAXF || fl.n_len > REF_MAXV || fl.v_len > REF_MAXV) { h->strict = 0; h->status = REF_H_REJECT; return; }
 			f = &h->f[h->nfields++];
 			f->folded = 0;
 			f->name_len = fl.n_len; f->value_len = fl.v_len;
-			for (i = 0; i < fl.n_len; i++) f->name[i] = l[fl.n_off + i];
-			for (i = 0; i < fl.v_len; i++) f->value[i] = l[fl.v_off + i];
+			for (i = 0; i < REF_MAXLINE && i < fl.n_len; i++) f->name[i] = l[fl.n_off + i];
+			for (i = 0; i < REF_MAXLINE && i < fl.v_len; i++) f->value[i] = l[fl.v_off + i];
 		}
 	}
 }
